@@ -34,6 +34,9 @@ type wireCase struct {
 	Query     string  `json:"query_hex"`
 	// LocalParse tells whether the DNS library parses the query at all.
 	LocalParse bool `json:"dns_library_parses_query"`
+	// Attempts are the outcomes of the attempts made (a case that yields no
+	// DNS message is retried on a fresh connection).
+	Attempts []string `json:"attempts"`
 
 	res tbench.Result
 }
@@ -64,15 +67,6 @@ func genKind(rng *rand.Rand, w *world, kind string) ecsSpec {
 			return e
 		}
 	}
-}
-
-type listenerTransport struct {
-	name string
-	// send sends the query; parseable tells whether an answer is certain to
-	// come (a query the DNS library cannot decode may be dropped, and either
-	// outcome is accepted, so a short wait suffices).
-	send func(wire []byte, parseable bool) tbench.Result
-	done func()
 }
 
 func listenerPhase(r *vkit.Run) {
@@ -132,82 +126,93 @@ func listenerPhase(r *vkit.Run) {
 	defer b.Close()
 
 	const quiet = 100 * time.Millisecond
-	waitFor := func(parseable bool) time.Duration {
-		if parseable {
-			return 8 * time.Second
-		}
-		return 300 * time.Millisecond
+	// A session is one client connection (socket) of a transport.  A case
+	// that must be answered and yields no DNS message at all (time-out, reset,
+	// QUIC or HTTP client error: outcomes of the infrastructure, not
+	// responses) is retried on a fresh session with a longer wait.
+	type session struct {
+		send  func(wire []byte, wait time.Duration) tbench.Result
+		close func()
 	}
-	// Streams: one connection per query; after the first frame keep reading
-	// until the connection is quiet or closed.
-	stream := func(dial func() (*tbench.StreamClient, error)) func([]byte, bool) tbench.Result {
-		return func(wire []byte, ok bool) tbench.Result {
-			wait := waitFor(ok)
-			c, derr := dial()
-			if derr != nil {
-				return tbench.Result{Outcome: tbench.Failed, Err: derr.Error()}
-			}
-			defer c.Close()
-			res := c.Exchange(wire, wait)
-			if res.Outcome == tbench.Answered {
-				more, _, _ := c.ReadUntilClosed(quiet)
-				res.Responses = append(res.Responses, more...)
-			}
-			return res
-		}
-	}
-	var trs []listenerTransport
-	addTr := func(name string, send func([]byte, bool) tbench.Result, done func()) {
-		trs = append(trs, listenerTransport{name, send, done})
-	}
-	if u, uerr := b.DialUDP(); uerr == nil {
-		addTr("udp", func(q []byte, ok bool) tbench.Result { return u.Exchange(q, waitFor(ok), quiet) }, func() { _ = u.Close() })
-	}
-	addTr("tcp", stream(b.DialTCP), nil)
-	addTr("dot", stream(b.DialDoT), nil)
-	if hc, herr := b.NewHTTPClient(tbench.HTTP2); herr == nil {
-		addTr("doh-h2-post", func(q []byte, ok bool) tbench.Result { return hc.Post(q, 8*time.Second) }, hc.Close)
-	}
-	if hc, herr := b.NewHTTPClient(tbench.HTTP1TLS); herr == nil {
-		addTr("doh-h1-get", func(q []byte, ok bool) tbench.Result { return hc.Get(q, 8*time.Second) }, hc.Close)
-	}
-	{
-		var qc *tbench.QUICClient
-		addTr("doq", func(q []byte, ok bool) tbench.Result {
-			if qc == nil || !qc.Alive() {
-				var qerr error
-				if qc, qerr = b.DialDoQ(); qerr != nil {
-					return tbench.Result{Outcome: tbench.Failed, Err: qerr.Error()}
+	streamSession := func(dial func() (*tbench.StreamClient, error)) func() (*session, error) {
+		// Streams: one connection per query; after the first frame keep reading
+		// until the connection is quiet or closed.
+		return func() (*session, error) {
+			return &session{send: func(wire []byte, wait time.Duration) tbench.Result {
+				c, derr := dial()
+				if derr != nil {
+					return tbench.Result{Outcome: tbench.Failed, Err: derr.Error()}
 				}
-			}
-			return qc.Exchange(q, 8*time.Second)
-		}, func() {
-			if qc != nil {
-				_ = qc.Close()
-			}
-		})
+				defer c.Close()
+				res := c.Exchange(wire, wait)
+				if res.Outcome == tbench.Answered {
+					more, _, _ := c.ReadUntilClosed(quiet)
+					res.Responses = append(res.Responses, more...)
+				}
+				return res
+			}, close: func() {}}, nil
+		}
 	}
-	if dc, derr := b.DialDNSCrypt("udp"); derr == nil {
-		addTr("dnscrypt-udp", func(q []byte, ok bool) tbench.Result {
-			res := dc.Exchange(q, waitFor(ok))
-			if res.Outcome == tbench.Answered {
-				res.Responses = append(res.Responses, dc.Drain(quiet)...)
+	httpSession := func(v tbench.HTTPVariant, get bool) func() (*session, error) {
+		return func() (*session, error) {
+			hc, herr := b.NewHTTPClient(v)
+			if herr != nil {
+				return nil, herr
 			}
-			return res
-		}, func() { _ = dc.Close() })
+			return &session{send: func(q []byte, wait time.Duration) tbench.Result {
+				if get {
+					return hc.Get(q, wait)
+				}
+				return hc.Post(q, wait)
+			}, close: hc.Close}, nil
+		}
 	}
-	if dc, derr := b.DialDNSCrypt("tcp"); derr == nil {
-		addTr("dnscrypt-tcp", func(q []byte, ok bool) tbench.Result {
-			res := dc.Exchange(q, waitFor(ok))
-			if res.Outcome != tbench.Answered {
-				_ = dc.Reconnect()
+	dnscryptSession := func(network string) func() (*session, error) {
+		return func() (*session, error) {
+			dc, derr := b.DialDNSCrypt(network)
+			if derr != nil {
+				return nil, derr
 			}
-			return res
-		}, func() { _ = dc.Close() })
+			return &session{send: func(q []byte, wait time.Duration) tbench.Result {
+				res := dc.Exchange(q, wait)
+				if network == "udp" && res.Outcome == tbench.Answered {
+					res.Responses = append(res.Responses, dc.Drain(quiet)...)
+				}
+				return res
+			}, close: func() { _ = dc.Close() }}, nil
+		}
+	}
+	type transport struct {
+		name string
+		dial func() (*session, error)
+	}
+	trs := []transport{
+		{"udp", func() (*session, error) {
+			u, uerr := b.DialUDP()
+			if uerr != nil {
+				return nil, uerr
+			}
+			return &session{send: func(q []byte, wait time.Duration) tbench.Result { return u.Exchange(q, wait, quiet) },
+				close: func() { _ = u.Close() }}, nil
+		}},
+		{"tcp", streamSession(b.DialTCP)},
+		{"dot", streamSession(b.DialDoT)},
+		{"doh-h2-post", httpSession(tbench.HTTP2, false)},
+		{"doh-h1-get", httpSession(tbench.HTTP1TLS, true)},
+		{"doq", func() (*session, error) {
+			qc, qerr := b.DialDoQ()
+			if qerr != nil {
+				return nil, qerr
+			}
+			return &session{send: func(q []byte, wait time.Duration) tbench.Result { return qc.Exchange(q, wait) },
+				close: func() { _ = qc.Close() }}, nil
+		}},
+		{"dnscrypt-udp", dnscryptSession("udp")},
+		{"dnscrypt-tcp", dnscryptSession("tcp")},
 	}
 	r.Bucket("listener_transports", int64(len(trs)))
 
-	reps := r.N(2, 10)
+	reps := r.N(3, 10)
 	all := make([][]*wireCase, len(trs))
 	var wg sync.WaitGroup
 	for ti := range trs {
@@ -216,9 +221,17 @@ func listenerPhase(r *vkit.Run) {
 			defer wg.Done()
 			tr := trs[ti]
 			trng := r.Rand("listener-"+tr.name, 0)
+			var cur *session
+			drop := func() {
+				if cur != nil {
+					cur.close()
+					cur = nil
+				}
+			}
+			defer drop()
 			for rep := 0; rep < reps; rep++ {
 				for ki, kind := range listenerKinds {
-					id := ti*10000 + rep*100 + ki
+					id := ti*5000 + rep*100 + ki + 1
 					wc := &wireCase{Transport: tr.name, ID: id, ECS: genKind(trng, w, kind), DO: trng.IntN(4) == 0,
 						Mode: []string{"eq", "scope0", "less", "noopt", "fixed16"}[trng.IntN(5)]}
 					wc.Name = fmt.Sprintf("%s-%d.c05-wire.example.", wc.Mode, id)
@@ -232,12 +245,37 @@ func listenerPhase(r *vkit.Run) {
 					wire := packQuery(uint16(id), wc.Name, dns.TypeA, len(opts) > 0 || wc.DO || ki%2 == 1, wc.DO, opts)
 					wc.Query = hex.EncodeToString(wire)
 					wc.LocalParse = (&dns.Msg{}).Unpack(wire) == nil
-					wc.res = tr.send(wire, wc.LocalParse)
+					// A query the DNS library cannot decode may be dropped, and
+					// either outcome is accepted: one attempt, short wait.
+					attempts, wait := 1, 300*time.Millisecond
+					if wc.LocalParse {
+						attempts, wait = 3, 10*time.Second
+					}
+					for a := 0; a < attempts; a++ {
+						if cur == nil {
+							var derr error
+							if cur, derr = tr.dial(); derr != nil {
+								cur = nil
+								wc.res = tbench.Result{Outcome: tbench.Failed, Err: "dial: " + derr.Error()}
+								wc.Attempts = append(wc.Attempts, wc.res.String())
+								continue
+							}
+						}
+						wc.res = cur.send(wire, wait)
+						wc.Attempts = append(wc.Attempts, string(wc.res.Outcome))
+						if len(wc.res.Responses) > 0 {
+							break
+						}
+						// no DNS message: next attempt on a fresh session
+						drop()
+						wait = 25 * time.Second
+					}
+					if !wc.LocalParse {
+						// the server may have torn the connection down
+						drop()
+					}
 					all[ti] = append(all[ti], wc)
 				}
-			}
-			if tr.done != nil {
-				tr.done()
 			}
 		}(ti)
 	}
@@ -261,10 +299,20 @@ func listenerPhase(r *vkit.Run) {
 			}
 			var rcodes []string
 			var msgs []*dns.Msg
+			// Only DNS messages that answer THIS query (ID and question) count
+			// as its responses.
 			for _, raw := range wc.res.Responses {
 				m := &dns.Msg{}
 				if uerr := m.Unpack(raw); uerr != nil {
-					rcodes = append(rcodes, "unparseable")
+					if len(raw) >= 2 && int(raw[0])<<8|int(raw[1]) == wc.ID&0xffff {
+						rcodes = append(rcodes, "undecodable-message")
+					} else {
+						r.Bucket("listener_stray_messages", 1)
+					}
+					continue
+				}
+				if int(m.Id) != wc.ID&0xffff || len(m.Question) != 1 || !strings.EqualFold(m.Question[0].Name, wc.Name) {
+					r.Bucket("listener_stray_messages", 1)
 					continue
 				}
 				msgs = append(msgs, m)
@@ -272,7 +320,10 @@ func listenerPhase(r *vkit.Run) {
 			}
 			observed := strings.Join(rcodes, "+")
 			if observed == "" {
-				observed = "no-response(" + string(wc.res.Outcome) + ")"
+				observed = "no-dns-message(" + string(wc.res.Outcome) + ")"
+			}
+			if len(wc.Attempts) > 1 {
+				r.Bucket("listener_retried_cases", 1)
 			}
 			ups := byName[strings.ToLower(wc.Name)]
 			wit := func() any {
@@ -302,7 +353,7 @@ func listenerPhase(r *vkit.Run) {
 				switch {
 				case len(ups) != 0:
 					viol(r, "listener:unparseable-ecs:"+wc.Transport+":reached-upstream", "an undecodable query reached the upstream", wit)
-				case len(wc.res.Responses) == 0:
+				case len(rcodes) == 0:
 					r.Bucket("listener_unparseable_dropped:"+wc.Transport+":"+string(wc.res.Outcome), 1)
 				case observed == "formerr":
 					r.Bucket("listener_unparseable_formerr", 1)
@@ -311,8 +362,22 @@ func listenerPhase(r *vkit.Run) {
 						"a query whose ECS option the DNS library cannot decode got DNS responses other than one FORMERR", wit)
 				}
 				continue
+			case len(rcodes) == 0:
+				// The query is decodable and must be answered, but after three
+				// attempts on fresh connections no DNS message came back: an
+				// outcome of the infrastructure (time-out, reset, QUIC / HTTP
+				// client error), not a response.  Never a verdict; but nothing
+				// of a malformed query may have reached the upstream.
+				r.Bucket("listener_ambiguous", 1)
+				r.Bucket("listener_ambiguous:"+wc.Transport, 1)
+				r.Sample(map[string]any{"listener_ambiguous_case": wc, "result": wc.res.String()})
+				if cls == "malformed" && len(ups) != 0 {
+					viol(r, pfx+wc.Transport+":reached-upstream", "a query with a malformed ECS option reached the upstream", wit)
+				}
+				continue
 			case cls == "malformed":
 				r.Bucket("listener_cases_malformed", 1)
+				r.Bucket("listener_malformed_decided:"+wc.Transport, 1)
 				switch {
 				case observed != "formerr":
 					viol(r, pfx+wc.Transport+":"+observed+"-instead-of-exactly-formerr",
@@ -328,7 +393,7 @@ func listenerPhase(r *vkit.Run) {
 				continue
 			}
 			r.Bucket("listener_cases_valid_or_zero", 1)
-			if len(msgs) != 1 || len(wc.res.Responses) != 1 || (msgs[0].Rcode != dns.RcodeSuccess && msgs[0].Rcode != dns.RcodeNameError) {
+			if len(msgs) != 1 || len(rcodes) != 1 || (msgs[0].Rcode != dns.RcodeSuccess && msgs[0].Rcode != dns.RcodeNameError) {
 				viol(r, "listener:wellformed-ecs:"+wc.Transport+":"+observed+"-instead-of-one-answer",
 					"a query with a well-formed (or no) ECS option, sent to a real listener, did not get exactly one resolved answer", wit)
 				continue
